@@ -417,6 +417,21 @@ def b1_border(ctx, facts):
             and leaf.value.args and au.src(leaf.value.args[0]) == "self.mesh"
         if is_cycle and au.const(leaf.slice) == 0:
             n_cycle += 1
+            ab = H.Abs(atom)
+            code = ab.boolean(H.conj(conds))
+            if not ab.unknown and conds:
+                wit, n = H.compare(ast.BoolOp(op=ast.And(), values=[code, H.name("custom")]), "False")
+                if wit is not None:
+                    ctx.fail("C17-B1", site, "run: the sorted border cycle is used although the target is custom",
+                             "row i of the custom boundary is the position of the i-th vertex of mesh.boundary_vertices: with the cycle order the positions land on other vertices")
+                    continue
+            elif not conds:
+                # unconditional: is the custom target handled at all (does the class know a custom mode)?
+                ib_src = au.src(ctx.repo.func(TUT, f"{CLS}._initialize_boundary"))
+                if "_custom_bnd" in ib_src:
+                    ctx.fail("C17-B1", site, "run: the sorted border cycle is used although the target is custom",
+                             "row i of the custom boundary is the position of the i-th vertex of mesh.boundary_vertices: with the cycle order the positions land on other vertices")
+                    continue
             ctx.ok("C17-B1", site, "border order = first result of extract_border_cycle(self.mesh)")
             continue
         if is_cycle:
@@ -497,6 +512,24 @@ def h1_system(ctx, facts):
                 elif not ok_lap or isinstance(cot, ast.Constant) or (isinstance(cot, ast.UnaryOp) and au.is_self_attr(cot.operand, "_use_cotan")):
                     ctx.fail("C17-H1", ssite, "run: the matrix is not operators.laplacian(self.mesh, cotan=self._use_cotan) (scalar, no connection)",
                              f"found `{au.src(lap)[:100]}`: uniform weights unless cotangent weights are requested; a connection Laplacian is complex")
+                elif ok_lap and au.is_self_attr(cot):
+                    # another attribute of the instance: what does the constructor store in it?
+                    d = None
+                    try:
+                        ini, iS, _ = H.norm_fn(ctx, TUT, f"{CLS}.__init__")
+                        sts = [q for q in au.stmts(ini.body) if isinstance(q, ast.Assign) and any(au.is_self_attr(t, cot.attr) for t in q.targets)]
+                        if len(sts) == 1:
+                            d = iS.canon(sts[0].value, sts[0])
+                        leaves = [l for q in sts for _, l in hj_scope.ifexp_leaves(iS.canon(q.value, q))]
+                    except Exception:      # noqa: BLE001
+                        d, leaves = None, []
+                    if d is not None and (H.is_name(d, "use_cotan") or (isinstance(d, ast.Call) and au.call_tail(d) == "bool" and len(d.args) == 1 and H.is_name(d.args[0], "use_cotan"))):
+                        ctx.ok("C17-H1", ssite, f"scalar Laplacian, cotan=self.{cot.attr} (= the constructor argument use_cotan)")
+                    elif leaves and all(isinstance(l, ast.Constant) and isinstance(l.value, str) and l.value for l in leaves):
+                        ctx.fail("C17-H1", ssite, "run: the matrix is not operators.laplacian(self.mesh, cotan=self._use_cotan) (scalar, no connection)",
+                                 f"`cotan=self.{cot.attr}` is a non-empty string, which is always true: cotangent weights are used whatever use_cotan says")
+                    else:
+                        ctx.undecided("C17-H1", ssite, "run: the `cotan` argument of the Laplacian is not recognised", "")
                 else:
                     ctx.undecided("C17-H1", ssite, "run: the `cotan` argument of the Laplacian is not recognised", "")
     flat = [k for c in covered for k in c]
@@ -613,6 +646,18 @@ def s1_siblings(ctx, facts):
         if isinstance(idx, ast.Tuple) and len(idx.elts) == 2 and isinstance(au.const(idx.elts[1]), int):
             col, idx = au.const(idx.elts[1]), idx.elts[0]
         base = e.value
+        # a column taken first (`X[:, col][i]`), reshapes of the two-column solution
+        for _ in range(3):
+            if isinstance(base, ast.Subscript) and isinstance(base.slice, ast.Tuple) and len(base.slice.elts) == 2 \
+                    and isinstance(base.slice.elts[0], ast.Slice) and base.slice.elts[0].lower is None and base.slice.elts[0].upper is None \
+                    and isinstance(au.const(base.slice.elts[1]), int) and col is None:
+                col, base = au.const(base.slice.elts[1]), base.value
+            elif isinstance(base, ast.Call) and isinstance(base.func, ast.Attribute) and base.func.attr == "reshape" and base.args \
+                    and isinstance(base.args[-1] if not isinstance(base.args[0], ast.Tuple) else base.args[0].elts[-1], ast.Constant) \
+                    and au.const(base.args[-1] if not isinstance(base.args[0], ast.Tuple) else base.args[0].elts[-1]) == 2:
+                base = base.func.value
+            else:
+                break
         k = _init_coord(base)
         if k is not None and col is None:
             return "B", k, idx
@@ -914,7 +959,7 @@ def l1_weights(ctx):
     _COT_NAMES.clear()
     for n in au.walk(fn):
         if isinstance(n, ast.Subscript) and isinstance(n.ctx, ast.Load) and isinstance(n.value, ast.Name):
-            c = S.canon(n.value, n)
+            c = S.canon(n.value, n, prune=False)
             _COT_NAMES.add(n.value.id)
             ok = _is_cot_expr(c)
             _COT_NAMES.discard(n.value.id)
@@ -1008,3 +1053,22 @@ def l1_weights(ctx):
                 ctx.ok("C17-L1", ssite, "corner weight = cot / 2")
             else:
                 ctx.undecided("C17-L1", ssite, "laplacian: the scaling of the cotangent weights is not the recognised cot / 2", f"found {pl!r}")
+
+
+
+# ----------------------------------------------------------------------- generic families (msa/rules/generic.py)
+_run_specific = run
+
+
+def run(ctx):
+    _run_specific(ctx)
+    from ..rules import generic
+    generic.apply(ctx, "C17", stale_modules=('processing.parametrization.tutte',))
+
+
+def _generic_rule_texts():
+    from ..rules import generic
+    return generic.rule_texts("C17", stale=True)
+
+
+RULES.update(_generic_rule_texts())
